@@ -141,7 +141,7 @@ def auto_type(el: Union[Dict[str, str], str]) -> Union[Dict[str, Type], Type]:
         return {k: auto_type(v) for k, v in el.items()}
     # String part
     stack = []
-    text = el
+    text = el.strip()
     last_infix = 0
     infix_stack = []
     or_flag = -1
